@@ -726,6 +726,9 @@ def ext_names(kind, names, n, args):
         return list(names[:d]) + [None] + list(names[d:])
     if kind == "cat_lazy_out":
         return list(names)
+    if kind == "masked_select":
+        # the dims under the mask collapse into one unnamed dim; the remaining batch dims keep their names (as with td[mask])
+        return [None] + list(names[args[0].dim():])
     return None
 
 
